@@ -759,7 +759,7 @@ def generate(tier, seed):
     guard = 0
     while nb < sz["fault_bases"] and guard < 20 * sz["fault_bases"]:
         guard += 1
-        base = gen_graph(rng, max_nodes=5)
+        base = gen_graph(rng, max_nodes=5, p_unset=0.0)  # faults and tolerated AttributeError are not mixed
         fc = gen_faults(rng, base)
         if fc:
             nb += 1
